@@ -462,3 +462,57 @@ pub fn hex(bytes: &[u8]) -> String {
 pub fn unhex(s: &str) -> Vec<u8> {
     (0..s.len() / 2).map(|i| u8::from_str_radix(&s[2 * i..2 * i + 2], 16).unwrap_or(0)).collect()
 }
+
+// ---------------------------------------------------------------------------
+// allocation guard: records single requests above 256 MiB ("enormous
+// allocation"); serves them if below 16 GiB (untouched zeroed memory is
+// lazily mapped), refuses larger ones (the process then aborts, which the
+// driver script reports as a machinery failure, never as a verdict).
+
+pub struct GuardAlloc;
+
+pub const ENORMOUS: usize = 256 << 20;
+const REFUSE: usize = 16 << 30;
+
+thread_local! {
+    static ENORMOUS_SEEN: std::cell::Cell<usize> = const { std::cell::Cell::new(0) };
+}
+
+unsafe impl std::alloc::GlobalAlloc for GuardAlloc {
+    unsafe fn alloc(&self, l: std::alloc::Layout) -> *mut u8 {
+        if l.size() >= ENORMOUS {
+            let _ = ENORMOUS_SEEN.try_with(|c| c.set(c.get().max(l.size())));
+            if l.size() >= REFUSE {
+                return std::ptr::null_mut();
+            }
+        }
+        unsafe { std::alloc::System.alloc(l) }
+    }
+    unsafe fn dealloc(&self, p: *mut u8, l: std::alloc::Layout) {
+        unsafe { std::alloc::System.dealloc(p, l) }
+    }
+    unsafe fn alloc_zeroed(&self, l: std::alloc::Layout) -> *mut u8 {
+        if l.size() >= ENORMOUS {
+            let _ = ENORMOUS_SEEN.try_with(|c| c.set(c.get().max(l.size())));
+            if l.size() >= REFUSE {
+                return std::ptr::null_mut();
+            }
+        }
+        unsafe { std::alloc::System.alloc_zeroed(l) }
+    }
+    unsafe fn realloc(&self, p: *mut u8, l: std::alloc::Layout, n: usize) -> *mut u8 {
+        if n >= ENORMOUS {
+            let _ = ENORMOUS_SEEN.try_with(|c| c.set(c.get().max(n)));
+            if n >= REFUSE {
+                return std::ptr::null_mut();
+            }
+        }
+        unsafe { std::alloc::System.realloc(p, l, n) }
+    }
+}
+
+/// Largest single allocation request >= 256 MiB made by this thread since the last call.
+pub fn take_enormous_allocation() -> Option<usize> {
+    let n = ENORMOUS_SEEN.with(|c| c.replace(0));
+    if n > 0 { Some(n) } else { None }
+}
